@@ -312,7 +312,7 @@ fn main() {
          non-trivial = commit under test that changes the substates of a non-empty store; distinct by canonical text of history + commit",
     );
     report.floor("crash_runs", 2 * args.cases as u64);
-    report.floor("cases_with_prior_history", (args.cases / 4) as u64);
+    report.floor("cases_with_prior_history", (args.cases / 5) as u64);
     report.floor("crash_points_after_first_write", (args.cases / 4) as u64);
     report.floor("obs_pre", (args.cases / 2) as u64);
     report.floor("obs_post", (args.cases / 2) as u64);
@@ -341,6 +341,25 @@ fn main() {
             commit = gen_commit(&mut rng, &pools, &db);
         }
         shrink_values(&mut commit, &mut rng);
+        // a small stream of commits the state tree rejects by panicking (a sort key that is a proper
+        // prefix of another one in the same partition: known finding C15 merkle-prefix-keys): a commit
+        // that dies this way must leave the pre-commit store
+        let mut expect_panic = false;
+        if i % 12 == 11 {
+            'outer: for (_, pus) in commit.iter_mut() {
+                for (_, u) in pus.iter_mut() {
+                    if let PUpd::Delta(l) = u {
+                        if let Some((k, Some(_))) = l.iter().find(|(_, v)| v.is_some()).cloned() {
+                            let mut k2 = k.clone();
+                            k2.push(0);
+                            l.push((k2, Some(vec![1])));
+                            expect_panic = true;
+                            break 'outer;
+                        }
+                    }
+                }
+            }
+        }
         let mut db_post = db.clone();
         apply_to_map(&mut db_post, &commit);
         let canon = format!("{} {} {}", pruning, coq_list(prior.iter().map(coq_updates)), coq_updates(&commit));
@@ -381,10 +400,32 @@ fn main() {
             Err(e) => {
                 verif_crash::disarm();
                 report.case(&canon, false);
-                report.oracle_failure(i, "", &format!("commit panicked: {}", e), input);
+                if !expect_panic {
+                    report.oracle_failure(i, "", &format!("commit panicked: {}", e), input);
+                } else {
+                    // the commit died inside the tree computation: the store must be the pre-commit one
+                    report.count("cases_commit_panicked_in_tree_computation");
+                    let after = dump(&refd, pruning);
+                    match (&pre, &after) {
+                        (Ok(a), Ok(b)) => {
+                            if let Err(e2) = consistent(b) {
+                                report.oracle_failure(i, "", &format!("store after a commit that panicked ({}) is inconsistent: {}", e, e2), input.clone());
+                            }
+                            if (&a.api_subs, a.version, &a.root, &a.nodes) != (&b.api_subs, b.version, &b.root, &b.nodes) {
+                                report.oracle_failure(i, "", &format!("store after a commit that panicked ({}) is not the pre-commit store", e), input.clone());
+                            }
+                        }
+                        _ => report.oracle_failure(i, "", "dump failed around a panicking commit", input.clone()),
+                    }
+                }
+                let _ = std::fs::remove_dir_all(&refd);
+                let _ = std::fs::remove_dir_all(&base);
                 continue;
             }
         };
+        if expect_panic {
+            report.count("cases_prefix_keys_did_not_panic");
+        }
         let post = dump(&refd, pruning);
         let _ = std::fs::remove_dir_all(&refd);
         let (pre, post) = match (pre, post) {
